@@ -405,6 +405,7 @@ FIELD_ROLES = {
         "type_infos": r"^rbx_binary::serializer::state::TypeInfos<", "shared_strings": r"^alloc::vec::Vec<rbx_types::shared_string::SharedString>$",
         "shared_string_ids": r"HashMap<rbx_types::shared_string::SharedString, u32\b", "output": r"^W$", "dom": r"^&'dom rbx_dom_weak::dom::WeakDom$",
         "serializer": r"^&'db rbx_binary::serializer::Serializer<"},
+    "rbx_binary::serializer::Serializer": {"database": r"ReflectionDatabase<", "compression": r"CompressionType$"},
     "rbx_binary::serializer::state::TypeInfos": {"values": r"BTreeMap<ustr::Ustr, rbx_binary::serializer::state::TypeInfo<", "next_type_id": r"^u32$", "database": r"ReflectionDatabase<"},
     "rbx_binary::serializer::state::TypeInfo": {
         "type_id": r"^u32$", "is_service": r"^bool$", "instances": r"^alloc::vec::Vec<&'dom rbx_dom_weak::instance::Instance>$",
